@@ -147,6 +147,16 @@ def run(ctx):
             w = f["witness"]
             res = pipelines(loop, w["text"], tmp, 999999)
             ctx.finding_witness(fid, res.get(w["surface"]) != [tuple(z) for z in w["zones"]])
+        from pathlib import Path
+        for cf in sorted((Path(__file__).resolve().parents[2] / "corpus" / "C05").glob("*.json")):
+            c = json.loads(cf.read_text())
+            want = [tuple(z) for z in c["zones"]]
+            res = pipelines(loop, c["text"], tmp, 999998)
+            for name, got in res.items():
+                ctx.count()
+                if got != want and not (name == "octave_eject(canonical,json)" and "\n§" in c["text"]):
+                    ctx.property_failure({"text": c["text"], "pipeline": name, "expected_zones": want, "observed": got, "corpus": cf.name},
+                                         f"{name}: literal zones differ from the input's (corpus {cf.name})")
         n = ctx.scale(450, 9000)
         oks = doccases.ok_string_set(ctx)
         for i in range(n):
